@@ -288,20 +288,35 @@ func runC14Strings(ctx *Ctx) {
 		var sp cty.Value
 		k := 0
 		inDomain := true
-		switch r.Intn(12) {
+		big := false
+		switch r.Intn(14) {
 		case 0:
 			sp, inDomain = cty.NumberIntVal(int64(-1-r.Intn(3))), false
 		case 1:
 			sp, inDomain = cty.NumberFloatVal(1.5), false
 		case 2:
 			sp, inDomain = cty.MustParseNumberVal("1e30"), false
+		case 3, 4:
+			// counts whose padding would not fit (math.MaxInt32 and beyond): refused when the string has a line
+			// break, immaterial when it has none (/repo d4d90b0) -- never a panic, never an attempt to build it
+			big = true
+			sp = cty.NumberIntVal([]int64{2147483647, 2147483648, 1 << 40, 1<<62 + 1}[r.Intn(4)])
+			if r.Intn(2) == 0 {
+				a = sv(strings.ReplaceAll(a.AsString(), "\n", " "))
+			} else if r.Intn(2) == 0 {
+				a = sv(a.AsString() + "\n")
+			}
+			inDomain = !strings.Contains(a.AsString(), "\n")
+			ctx.Tag(fmt.Sprintf("indent:huge-count:linebreak=%v", !inDomain))
 		default:
 			k = r.Intn(6)
 			sp = cty.NumberIntVal(int64(k))
 		}
 		o := newOracle()
 		c := glueCase{name: "indent", goNm: "Indent", f: stdlib.IndentFunc, args: []cty.Value{sp, a}, orc: o}
-		if inDomain {
+		if inDomain && big {
+			c.want = sv(o.nfc(a.AsString()))
+		} else if inDomain {
 			c.want = sv(o.nfc(strings.ReplaceAll(a.AsString(), "\n", "\n"+strings.Repeat(" ", k))))
 		} else {
 			c.wantErr = true
